@@ -20,7 +20,7 @@ from common import (CACHE, ToolError, build_harness, load_known, log, repo_state
 PROP_GROUPS = {
     "C01": ["store"], "C02": ["conc"], "C03": ["conc"], "C04": ["dur"], "C05": ["store"], "C06": ["store", "conc", "http"],
     "C07": ["store", "dur"], "C08": ["store"], "C09": ["store", "conc"], "C10": ["store", "http", "conc", "dur", "proc"],
-    "C11": ["conc", "store"], "C12": ["codec", "store", "http", "proc"], "C13": ["http"], "C20": ["store", "http"],
+    "C11": ["conc", "store", "http"], "C12": ["codec", "store", "http", "proc"], "C13": ["http"], "C20": ["store", "http"],
     "C14": ["proc"], "C15": ["proc"], "C16": ["proc"], "C17": ["proc"], "C18": ["proc"], "C19": ["proc"],
 }
 PROP_GROUPS["C06"] = PROP_GROUPS["C06"] + ["proc"]
